@@ -267,7 +267,8 @@ def check(ctx):
             lo, hi = len_range(a_["len"])
             if is_channel and (lo, hi) == (1, 1):
                 bare_ok = True
-            if is_channel and lo >= 2 and any(v_ == "tauri" for k_, v_ in segs.items() if k_ in (0, "first")):
+            # (`len >= 2`, or — a first segment exists and — `len != 1`)
+            if is_channel and (lo >= 2 or ("Ne", 1) in a_["len"]) and any(v_ == "tauri" for k_, v_ in segs.items() if k_ in (0, "first")):
                 tauri_ok = True
         name_ok = bool(named) and all(named)
         if name_ok:
